@@ -29,6 +29,18 @@ def verif_hash():
     return build.tree_hash([os.path.join(VERIF, d) for d in ('tools', 'rt', 'shim', 'harness')])
 
 _build_lock = threading.Lock()
+# never schedule more than MEM_BUDGET GB of per-query memory caps at once (the machine has 62 GB)
+MEM_BUDGET = int(os.environ.get('VERIF_MEM_GB', '48'))
+_mem_cv = threading.Condition(); _mem_used = [0]
+class mem_slot:
+    def __init__(self, gb): self.gb = min(gb, MEM_BUDGET)
+    def __enter__(self):
+        with _mem_cv:
+            while _mem_used[0] + self.gb > MEM_BUDGET: _mem_cv.wait()
+            _mem_used[0] += self.gb
+    def __exit__(self, *a):
+        with _mem_cv:
+            _mem_used[0] -= self.gb; _mem_cv.notify_all()
 _group_cache = {}
 def get_group(job):
     key = (job.group, job.config, job.temp_mode, job.roots, job.threads)
@@ -84,8 +96,9 @@ def run_job(job, rh, vh, use_cache=True):
     elif job.solver == 'kissat': extra += ['--external-sat-solver', 'kissat']
     elif job.solver == 'cvc5': extra += ['--cvc5']     # via tools/bin/cvc5: --solve-bv-as-int=sum (mul/div kernels)
     uws = list(job.unwindset) + sweep_unwind(job, g)
-    r = build.run_cbmc(g, job.harness, defines=job.all_defines(), unwind=job.unwind, unwindset=uws,
-                       timeout=job.timeout, mem_gb=job.mem_gb, function=job.function, extra=extra)
+    with mem_slot(job.mem_gb):
+        r = build.run_cbmc(g, job.harness, defines=job.all_defines(), unwind=job.unwind, unwindset=uws,
+                           timeout=job.timeout, mem_gb=job.mem_gb, function=job.function, extra=extra)
     res.update(cbmc_status=r['status'], solver_wall_s=round(r['time'], 2), n_props=len(r['props']),
                steps=r.get('steps'), vars=r.get('vars'), clauses=r.get('clauses'), cmd=r['cmd'])
     res['prop_list'] = [p[1] for p in r['props']]
